@@ -171,6 +171,7 @@ func Check(r *ev.Run, replay string) {
 		progen.F9(y)
 		progen.F2Operand(y)
 		progen.F11(y)
+		progen.F12(y)
 		if r.Thorough() {
 			progen.F8(true, y)
 		}
@@ -182,7 +183,7 @@ func Check(r *ev.Run, replay string) {
 	r.Set("concrete_steps_checked_against_table", int(c.steps))
 	r.Set("programs_analysed", int(c.programs))
 	r.Set("programs_rejected_by_compiler_skipped", int(c.skippedRejected))
-	r.Set("rule", fmt.Sprintf("explicit-state search over (code, ip, height) of the bytecode of a statement in the place of a call argument (12 statements x 16 call contexts), every control-skeleton program with <= %d statement nodes (all) and <= %d (break/continue under a switch in a loop) and of every program of the function, scoping, container, error/defer, closure and constant families; conformance: every instruction executed by the real VM for the same programs is compared with the effect table, a finished evaluation leaves exactly its result and a failed one nothing on the stack; scaled loop bounds 10 vs large for every loop skeleton", maxAll, maxFiltered))
+	r.Set("rule", fmt.Sprintf("explicit-state search over (code, ip, height) of the bytecode of a statement in the place of a call argument (12 statements x 16 call contexts), template strings with 0-2 contributing fragments in 18 contexts, every control-skeleton program with <= %d statement nodes (all) and <= %d (break/continue under a switch in a loop) and of every program of the function, scoping, container, error/defer, closure and constant families; conformance: every instruction executed by the real VM for the same programs is compared with the effect table, a finished evaluation leaves exactly its result and a failed one nothing on the stack; scaled loop bounds 10 vs large for every loop skeleton", maxAll, maxFiltered))
 }
 
 // scaled runs every loop skeleton with its outermost loops at 10 iterations and at a
